@@ -235,7 +235,7 @@ def run(ck, facts):
         ck.expect(not miss_c, "R4", "fmt_identifier/C-keywords", "table %s: %d words, all %d C11 keywords covered" % (c_tab, len(cset), len(kw["c"])),
                   "in C mode fmt_identifier consults %s, which misses the C keywords %s: a parameter with such a name yields a header that is not valid C" % (c_tab, miss_c), C.loc(fi))
         ck.expect(not miss_cpp, "R4", "fmt_identifier/C++-keywords", "table %s: %d words" % (cpp_tab, len(cppset)), "in C++ mode fmt_identifier consults %s, which misses %s" % (cpp_tab, miss_cpp), C.loc(fi))
-        esc = any(re.fullmatch(r"\{name\}_", s) for s in C.str_lits(C.fn_body(fi)))
+        esc = any(re.fullmatch(r"\{[\w.]+\}_", C.macro_fmt_canon(x) or "") for x in C.walk(C.fn_body(fi)) if x.get("k") == "macro")
         ck.expect(esc, "R4", "fmt_identifier/escape-form", "{name}_", "reserved words are no longer escaped by appending an underscore", C.loc(fi))
 
 
